@@ -266,7 +266,8 @@ def filter_xml(kind, fs, fe, extra="none"):
 
 def model_req(o, fs, fe):
     r = {"m": "filter", "kind": o["kind"], "fs": TMIN if fs is None else fs, "fe": TMAX if fe is None else fe,
-         "occ": occ_for(o, TMAX if fe is None else fe), "datetime": o["datetime"], "overrides": []}
+         "occ": occ_for(o, TMAX if fe is None else fe), "datetime": o["datetime"], "overrides": [],
+         "unbounded": bool(o["unbounded"]), "tmax": TMAX}
     if o["kind"] == "VEVENT":
         r.update(end=o["end"], dur=o["dur"])
     if o["kind"] == "VTODO":
@@ -314,7 +315,7 @@ def function_level(ctx):
                 if a is not None and extra == "none" and a["match"] != got:
                     ctx.disagree("time_range_match vs model", case, got, a["match"])
             # hull in the cache: for an unbounded rule it starts at the first real occurrence and never ends
-            if o["unbounded"] and o["kind"] != "VTODO":
+            if o["unbounded"]:
                 try:
                     hull = list(item.time_range)
                 except Exception as e:
@@ -531,8 +532,36 @@ def known_witnesses(ctx):
                           finding="F9")
 
 
+F27_TEXT = ("BEGIN:VCALENDAR\r\nVERSION:2.0\r\nPRODID:-//verif//EN\r\nBEGIN:VTODO\r\nUID:f27\r\nDTSTAMP:20240101T000000Z\r\n"
+            "DTSTART:20240302T030001Z\r\nDURATION:PT0S\r\nRRULE:FREQ=WEEKLY;INTERVAL=2\r\nSUMMARY:x\r\nEND:VTODO\r\nEND:VCALENDAR\r\n")
+
+
+def f27_witness(ctx):
+    """F27 (fixed): a recurring zero-length to-do whose first occurrence is the last instant of the requested range"""
+    import vobject
+    import radicale.item as ritem
+    from radicale.item import filter as rfilter
+    fe = int(dtm.datetime(2024, 3, 2, 3, 0, 1, tzinfo=dtm.timezone.utc).timestamp())
+    fs = fe - 7200
+    with App({"auth": {"type": "none"}}) as app:
+        app.request("MKCALENDAR", "/u/cal/", login="u:p")
+        if app.request("PUT", "/u/cal/f27.ics", F27_TEXT, login="u:p")[0] != 201:
+            return
+        body = ('<?xml version="1.0"?><C:calendar-query %s><D:prop><D:getetag/></D:prop>%s</C:calendar-query>' % (NS, filter_xml("VTODO", fs, fe)))
+        st, _, text = app.request("REPORT", "/u/cal/", body, login="u:p")
+        got = sorted(parse_multistatus(text)[0]) if st == 207 else st
+    item = ritem.Item(collection_path="u/cal", vobject_item=vobject.readOne(F27_TEXT))
+    full = rfilter.comp_match(item, ET.fromstring(filter_xml("VTODO", fs, fe))[0])
+    ctx.case("witness:F27", sample={"report": got, "full evaluation": full}, key="F27", nontrivial=True)
+    if full and got != ["/u/cal/f27.ics"]:
+        ctx.violation("calendar-query drops a recurring zero-duration to-do whose first occurrence is the last instant of the range although the "
+                      "filter matches it (RFC 4791 9.9: end >= DTSTART+DURATION): the storage pre-selection skipped it", {"object": F27_TEXT, "range": [fs, fe]},
+                      ["/u/cal/f27.ics"], got, finding="F27")
+
+
 def run(ctx):
     known_witnesses(ctx)
+    f27_witness(ctx)
     ctx.extra["rule"] = ("VEVENT/VTODO/VJOURNAL from the grammar (DATE or UTC start; DTEND/DURATION/neither; DAILY|WEEKLY x INTERVAL x "
                          "COUNT|UNTIL|unbounded; EXDATE; the eight VTODO combinations) x ranges whose ends sit at, 1 s before and 1 s after "
                          "every boundary, open-ended ones included; each filter also with an always-true condition before / after the "
